@@ -134,7 +134,10 @@ class Unquoter:
                        sample="upper-case hex escape of an unsafe literal")
                 self.sites.append(site)
                 continue
-            # verbatim slice of the input
+            # verbatim slice of the input (two adjacent slices appended as one piece are the slice from the first bound to the last)
+            if a[0] == "binop" and a[1] == "Add" and all(x[0] == "sub" and x[1] == ("param", "val") and x[2][0] == "slice" for x in (a[2], a[3])) \
+                    and a[2][2][2] == a[3][2][1] and a[2][2][3] == NONE and a[3][2][3] == NONE:
+                a = ("sub", ("param", "val"), ("slice", a[2][2][1], a[3][2][2], NONE))
             if a[0] == "sub" and a[1] == ("param", "val") and a[2][0] == "slice":
                 site["cls"] = "VERBATIM"
                 # a run of escapes that could not be decoded is copied as it stands: the copy ends where the scan stands (or
@@ -259,12 +262,43 @@ class Unquoter:
             d[k] = d.get(k, 0) - v
         d = {k: v for k, v in d.items() if v}
         c = fhi[1] - flo[1]
+        aux = [k for k in d if k != LEN and k[0] == "phi" and not self._is_scan_index(k) and not self._is_pending(k)]
+        if aux:
+            raise AnalysisError(f"{self.qual}: a verbatim copy is bounded by the loop-carried position {show(aux[0])[:30]} (a remembered start "
+                                "of the pending run): its relation to the scan index is not derived here (unknown idiom)")
         positional = [k for k in d if k == LEN or any(x[0] == "phi" and self._is_scan_index(x) for x in walk(k)) or self.is_unit(k)]
         if positional:
             return f"it varies with {[show(k)[:30] if k != LEN else 'the length of the input' for k in positional]}"
         if any(v % 3 for v in d.values()) or c % 3:
             return f"{ {show(k)[:30]: v for k, v in d.items()} } + {c} is not a multiple of three"
         return None
+
+    def _assumes_empty_escape(self, st):
+        """Does the path assume that text containing `val[i - 3 : i]` (an escape just consumed: the scan index is at least 3
+        and at most len(val) there) is empty? Such a path cannot be taken."""
+        for k, fv in st.facts.items():
+            if fv is not False:
+                continue
+            for t in walk(k):
+                if t[0] == "sub" and t[1] == ("param", "val") and t[2][0] == "slice" and t[2][3] == NONE and t[2][1] != NONE and t[2][2] != NONE:
+                    lo, hi = t[2][1], t[2][2]
+                    blo, olo = lin(lo)
+                    bhi, ohi = lin(hi)
+                    if blo == bhi and ohi - olo == 3 and blo[0] == "phi" and self._is_scan_index(blo) and ohi >= 3 and \
+                            (k == t or (k[0] == "binop" and k[1] == "Add" and t in (k[2], k[3]))):
+                        # hi = index + c with c >= 3 after an escape was recognised (the look-ahead test bounds it by the length)
+                        return True
+        return False
+
+    def _is_pending(self, phi):
+        """Is this loop-carried variable the count of pending bytes (it is multiplied by 3 somewhere / named as the buffer length)?"""
+        for e in self.r.events:
+            for v in e.data.values():
+                if isinstance(v, tuple) and v and isinstance(v[0], str):
+                    for t in walk(v):
+                        if t[0] == "binop" and t[1] == "Mult" and ((t[2] == phi and t[3] == ("const", 3)) or (t[3] == phi and t[2] == ("const", 3))):
+                            return True
+        return False
 
     def _is_scan_index(self, phi):
         """Is this loop-carried variable the scan index (the one the input is read at)?"""
@@ -423,13 +457,40 @@ class Unquoter:
                        sample="''.join(ret)")
 
     def _changed_flag_sound(self):
-        """pyx: every emission that is not the verbatim unit/slice happens on a path where `changed` was set."""
+        """pyx: every emission that is not the verbatim unit/slice happens on a path where `changed` was set - at the
+        emission, or (when a helper emits and reports it through its result) by the end of the same iteration."""
+        ok = True
         for site in self.sites:
             if site["cls"] in ("VERBATIM", "RAW", "PLUS"):
                 continue
             st = site["event"].state
             ch = st.env.get("changed")
             if ch != ("const", 1) and ch != ("const", True):
+                ok = False
+        if ok:
+            return True
+        # per iteration: whatever the iteration appended besides input units / verbatim slices / the '+' of a '+' requires the flag
+        # to be set when the iteration ends
+        r = self.r
+        lids = [lid for lid, node in r.loops.items() if isinstance(node, ast.While)]
+        if not lids:
+            return False
+        lid = lids[0]
+        for s in r.backedges.get(lid, []):
+            acc = s.env.get(self.acc)
+            other = False
+            seen = 0
+            while acc is not None and acc != ("phi", lid, self.acc) and seen < 64:
+                seen += 1
+                if acc[0] == "mut" and acc[2] in ("append", "extend") and len(acc[3]) == 1:
+                    a = acc[3][0]
+                    same = (a[0] == "sub" and a[1] == ("param", "val") and a[2][0] == "slice") or self.is_unit(a) or a == ("const", "+")
+                    other = other or not same
+                    acc = acc[1]
+                else:
+                    other = True        # appended inside an inner loop / unknown update: counts as a change
+                    break
+            if other and s.env.get("changed") not in (("const", 1), ("const", True)):
                 return False
         return True
 
@@ -442,6 +503,8 @@ class Unquoter:
             if not isinstance(node, ast.While):
                 continue
             for s in states:
+                if self._assumes_empty_escape(s):
+                    continue        # infeasible: the path treats a three-character slice of the input as empty
                 ctx.instance(rule)
                 acc = s.env.get(self.acc)
                 emitted = acc is not None and acc != ("phi", lid, self.acc)
@@ -459,6 +522,33 @@ class Unquoter:
 
 def is_join(v):
     return v[0] == "call" and v[1][0] == "attr" and v[1][2] == "join" and v[1][1] == ("const", "") and len(v[2]) == 1
+
+
+def linform(t):
+    """term -> ({atom: coefficient}, constant) for +, -, unary minus and multiplication by an integer literal; the length of
+    the input is the atom ("<len>",). Anything else is an atom of its own."""
+    LEN = ("<len>",)
+    if t[0] == "const" and isinstance(t[1], int) and not isinstance(t[1], bool):
+        return {}, t[1]
+    if _is_length(t) and (t == ("param", "length") or (t[2] and t[2][0] == ("param", "val"))):
+        return {LEN: 1}, 0
+    if t[0] == "unop" and t[1] == "USub":
+        d, c = linform(t[2])
+        return {k: -v for k, v in d.items()}, -c
+    if t[0] == "binop" and t[1] in ("Add", "Sub"):
+        (da, ca), (db, cb) = linform(t[2]), linform(t[3])
+        sg = 1 if t[1] == "Add" else -1
+        d = dict(da)
+        for k, v in db.items():
+            d[k] = d.get(k, 0) + sg * v
+        return {k: v for k, v in d.items() if v}, ca + sg * cb
+    if t[0] == "binop" and t[1] == "Mult":
+        (da, ca), (db, cb) = linform(t[2]), linform(t[3])
+        if not da:
+            return {k: v * ca for k, v in db.items() if v * ca}, ca * cb
+        if not db:
+            return {k: v * cb for k, v in da.items() if v * cb}, ca * cb
+    return {t: 1}, 0
 
 
 def read_bounds(ctx: Ctx, model: Model, fi, r):
@@ -490,11 +580,27 @@ def read_bounds(ctx: Ctx, model: Model, fi, r):
             slack = la - rbo - (0 if op == "Lt" else 1)
             if 0 <= c <= slack:
                 ok, why = True, f"{show(a)} {'<' if op == 'Lt' else '<='} {show(b)}"
+        if not ok and c >= 0:
+            # any other spelling of the bound (`length - idx > 2`, `idx + 3 <= length`): a linear fact m*(idx - LEN) + k <(=) 0
+            LEN = ("<len>",)
+            for op, a, b in order_facts(st.facts):
+                (da, ca), (db, cb) = linform(a), linform(b)
+                d = dict(da)
+                for k, v in db.items():
+                    d[k] = d.get(k, 0) - v
+                d = {k: v for k, v in d.items() if v}
+                k0 = ca - cb
+                if set(d) == {base, LEN} and d[base] == 1 and d[LEN] == -1:
+                    upper = -k0 - (1 if op == "Lt" else 0)        # idx - LEN <= upper
+                    if c + upper <= -1:
+                        ok, why = True, f"{show(a)} {'<' if op == 'Lt' else '<='} {show(b)}"
         if not ok and c == -1:
             # decreasing scan: index starts at the length, is decremented once per iteration, loop runs while index != 0
             srcs = r.phis.get((base[1], base[2]), set())
             dec_only = all(_is_length(x) or lin(x) == (base, -1) or x == base for x in srcs)
-            if dec_only and truth(base, st.facts) is True:
+            positive = truth(base, st.facts) is True or any(op == "Lt" and a == ("const", 0) and b == base for op, a, b in order_facts(st.facts)) \
+                or any(op == "LtE" and a == ("const", 1) and b == base for op, a, b in order_facts(st.facts))
+            if dec_only and positive:
                 ok, why = True, "decreasing scan from length while index != 0"
         ctx.ob(rule, fi.qual, show(e.value), ok,
                f"PyUnicode_READ at loop index {c:+d} is not bounded by the string length on this path (out-of-bounds read)",
